@@ -33,6 +33,7 @@ def handle (cmd : String) (args : List String) : Option String :=
       if r.errs.size > 0 then some s!"ERR{r.errs.size}" else
       let tree := build r.block
       let occs := bindChunk r.block
+      let toccs := bindTraversal r.block
       let vars := allVars tree
       let items := occs.map fun o =>
         let kind := if o.isDecl then "D" else if o.isWrite then "W" else "U"
@@ -63,7 +64,10 @@ def handle (cmd : String) (args : List String) : Option String :=
             | some d => if Scope.isContainLoc d.region o.loc then "I" else clsR
             | none => clsR
           | none => if o.decl.isNone then "" else clsR
-        s!"{bytesToHex o.name}@{L o.loc},{kind},S={showDecl o.decl},Ms={showVar ms},Me={showVar me},K={cls ms}{cls me}"
+        let t := match toccs.find? (fun x => x.loc == o.loc) with
+          | some x => showDecl x.decl
+          | none => "?"
+        s!"{bytesToHex o.name}@{L o.loc},{kind},S={showDecl o.decl},Ms={showVar ms},Me={showVar me},K={cls ms}{cls me},T={t}"
       some ("OK " ++ ";".intercalate items)
   | "complete", [h, conv, line, col] =>
     match hexToBytes h, line.toInt?, col.toInt? with
